@@ -444,7 +444,7 @@ class MonitorHarness:
             if kind == "lock":
                 o.fields[name] = self.lock_obj
             elif kind.startswith("callback:"):
-                o.fields[name] = Opaque("callback", name, token=kind.split(":")[1])
+                o.fields[name] = Opaque("callback", name, token=kind.split(":")[1], may_be_default="noop")
             elif kind.startswith("effectref:"):
                 o.fields[name] = w.new_ref(it, name, token=kind.split(":")[1])
             elif kind == "scheduler":
